@@ -61,20 +61,45 @@ def norm_msg(msg):
 
 class RT:
     """Result of one round trip."""
-    __slots__ = ("ok", "stage", "msg", "bad", "noise", "t1", "t2", "reordered", "m_bytes")
+    __slots__ = ("ok", "stage", "msg", "bad", "noise", "t1", "t2", "reordered", "mptr", "spec")
 
 
-def roundtrip(lib, xml, vfs, keep_hash=False):
-    """parse+compile xml, save, parse+compile the saved text, save again; compare."""
+_DBUF = None
+
+
+def raw_compile(lib, spec, vfs):
+    """mj_compile -> raw mjModel pointer (no Python reflection objects: those cost more than the compile)."""
+    p = lib.mj_compile(spec, vfs)
+    if not p:
+        raise mj.MjError("compile: " + (lib.cstr(lib.mjs_getError(spec)) or ""))
+    return p
+
+
+def fast_equal(lib, p1, p2):
+    """memcmp of every reflected field + mjVisual bytes (C side)."""
+    import ctypes
+    global _DBUF
+    if _DBUF is None:
+        _DBUF = ctypes.create_string_buffer(128)
+    if lib.c.vg_model_diff(p1, p2, _DBUF, 128):
+        return False
+    off = R._offsets(lib)
+    o, n = off["mjModel.vis"], off["sizeof.mjVisual"]
+    return ctypes.string_at(p1 + o, n) == ctypes.string_at(p2 + o, n)
+
+
+def roundtrip(lib, xml, vfs, keep=False):
+    """parse+compile xml, save, parse+compile the saved text, save again; compare.  With keep=True the
+    first model pointer and spec are kept alive in the result (caller frees with release())."""
     r = RT()
     r.ok = False
-    r.bad, r.noise, r.t1, r.t2, r.reordered, r.m_bytes = [], [], None, None, False, None
+    r.bad, r.noise, r.t1, r.t2, r.reordered, r.mptr, r.spec = [], [], None, None, False, None, None
     spec = spec2 = None
-    m = m2 = None
+    p1 = p2 = None
     try:
         try:
             spec = lib.parse_xml(xml, vfs)
-            m = lib.compile(spec, vfs)
+            p1 = raw_compile(lib, spec, vfs)
         except mj.MjError as e:
             r.stage, r.msg = "load", str(e)
             return r
@@ -85,30 +110,40 @@ def roundtrip(lib, xml, vfs, keep_hash=False):
             return r
         try:
             spec2 = lib.parse_xml(r.t1, vfs)
-            m2 = lib.compile(spec2, vfs)
+            p2 = raw_compile(lib, spec2, vfs)
         except mj.MjError as e:
             r.stage, r.msg = "reload", str(e)
             return r
-        r.bad, r.noise = R.compare(lib, m, m2, TOL64)
+        if not fast_equal(lib, p1, p2):
+            r.bad, r.noise = R.compare(lib, mj.Model(lib, p1, own=False), mj.Model(lib, p2, own=False), TOL64)
         try:
             r.t2 = R.save_string(lib, spec2)
         except mj.MjError as e:
             r.stage, r.msg = "resave", str(e)
             return r
-        if r.t1 != r.t2:
-            r.reordered = R.canon_text(r.t1) == R.canon_text(r.t2)
-        if keep_hash:
-            r.m_bytes = hash(tuple(m.field(f).tobytes() for f in m.fields() if f != "signature")) ^ hash(R.vis_bytes(lib, m))
+        r.reordered = R.text_cmp(r.t1, r.t2)
         r.ok = True
         r.stage = "done"
+        if keep:
+            r.mptr, r.spec = p1, spec
+            p1 = spec = None
         return r
     finally:
-        for x in (m, m2):
-            if x is not None:
-                x.free()
+        for x in (p1, p2):
+            if x:
+                lib.mj_deleteModel(x)
         for s in (spec, spec2):
             if s is not None:
                 lib.mj_deleteSpec(s)
+
+
+def release(lib, r):
+    if r.mptr:
+        lib.mj_deleteModel(r.mptr)
+        r.mptr = None
+    if r.spec is not None:
+        lib.mj_deleteSpec(r.spec)
+        r.spec = None
 
 
 def judge(part, r, key_prefix, what_prefix, replay):
@@ -128,13 +163,14 @@ def judge(part, r, key_prefix, what_prefix, replay):
         part.add("ulp_noise_docs")
         mx = max([e for _, e in r.noise] + [0.0])
         part["extra"]["max_noise"] = max(part["extra"].get("max_noise", 0.0), mx)
-    if r.t1 != r.t2:
-        if r.reordered:
-            part.add("fixpoint_sibling_order_only")
-        else:
-            part.violation("%s: saved text is not a fix-point" % key_prefix,
-                           "%s: save(load(save(x))) != save(x) beyond sibling order" % what_prefix, replay)
-            clean = False
+    if r.reordered == "numeric-noise":
+        part.add("fixpoint_numeric_noise_only")
+    elif r.reordered == "reordered":
+        part.add("fixpoint_sibling_order_only")
+    elif r.reordered == "different":
+        part.violation("%s: saved text is not a fix-point" % key_prefix,
+                       "%s: save(load(save(x))) != save(x) beyond sibling order / 9-digit numeric noise" % what_prefix, replay)
+        clean = False
     return clean
 
 
@@ -181,14 +217,22 @@ def run_edge(lib, vfs, part, parent, child, ctx, enum_all):
         part["extra"].setdefault("unscaffolded", []).append(edge + ": no scaffold (decoder/plugin unavailable here)")
         return
     base_xml = doc.xml()
-    rb = roundtrip(lib, base_xml, vfs, keep_hash=True)
+    rb = roundtrip(lib, base_xml, vfs, keep=True)
     part.count(1)
     if rb.stage == "load":
         raise RuntimeError("scaffold of %s does not load: %s" % (edge, rb.msg))
     if not judge(part, rb, "baseline %s/%s%s" % (parent, child, "[default]" if ctx == "default" else ""),
                  "scaffold %s" % edge, {"xml": base_xml}):
         part.add("edges_with_failing_baseline")
+        release(lib, rb)
         return
+    try:
+        _edge_attrs(lib, vfs, part, parent, child, ctx, enum_all, edge, rb)
+    finally:
+        release(lib, rb)
+
+
+def _edge_attrs(lib, vfs, part, parent, child, ctx, enum_all, edge, rb):
     for c in G.attr_cases_of(parent, child, ctx):
         name = "%s.%s%s" % (child, c["attr"], "[default]" if ctx == "default" else "")
         nload = 0
@@ -196,13 +240,14 @@ def run_edge(lib, vfs, part, parent, child, ctx, enum_all):
         for setting in c["cands"]:
             d = build_doc(parent, child, ctx, setting)
             xml = d.xml()
-            r = roundtrip(lib, xml, vfs, keep_hash=True)
+            r = roundtrip(lib, xml, vfs, keep=True)
             part.count(1)
             if r.stage == "load":
                 lasterr = norm_msg(r.msg)
                 continue
             nload += 1
-            effect = (r.m_bytes != rb.m_bytes) or (r.t1 != rb.t1)
+            effect = (r.t1 != rb.t1) or (r.mptr and not fast_equal(lib, r.mptr, rb.mptr))
+            release(lib, r)
             part.count(0, key=(parent, child, ctx, c["attr"], repr(setting)) if effect else None,
                        sample={"edge": edge, "attr": c["attr"], "setting": setting, "xml": xml} if effect and c["attr"] in ("solimp", "euler", "type") else None)
             if not effect:
@@ -219,7 +264,8 @@ def run_edge(lib, vfs, part, parent, child, ctx, enum_all):
 
 # ------------------------------------------------------------------ B: alphabet models
 
-MESHV = "0.123456789 0.1 0.1  0.1 -0.101234567 -0.1  -0.1 0.1 -0.100000123  -0.1 -0.1 0.1000007 0.0301 0.0202 0.17000001"
+MESHV = "0.125 0.1 0.1  0.1 -0.101 -0.1  -0.1 0.1 -0.1003  -0.1 -0.1 0.10007 0.0301 0.0202 0.17"
+MESHV9 = "0.123456789 0.1 0.1  0.1 -0.101234567 -0.1  -0.1 0.1 -0.100000123  -0.1 -0.1 0.1000007 0.0301 0.0202 0.17000001"
 
 
 def alphabet_models(nmax, menu):
@@ -320,17 +366,46 @@ def run_alphabet(lib, vfs, part, tag, xml, idx):
             lib.mj_deleteVFS(v2)
 
 
+SPECIALS = [
+    ("inline mesh whose vertices need 9 significant digits",
+     '<mujoco><asset><mesh name="me" vertex="%s"/></asset><worldbody><body><freejoint/><geom type="mesh" mesh="me"/></body></worldbody></mujoco>' % MESHV9),
+    ("frame placed before a direct sibling of the same kind",
+     '<mujoco><worldbody><body name="b"><joint/><frame name="f" pos="0 0 0.1"><geom name="in_frame" type="box" size="0.1 0.2 0.3"/>'
+     '<site name="s_in"/></frame><geom name="direct" size="0.05"/><site name="s_direct" pos="0 0 1"/></body></worldbody></mujoco>'),
+    ("nested frames with childclass and a body inside",
+     '<mujoco><default><default class="a"><geom rgba="1 0 0 1" size="0.03"/><default class="b"><geom type="box"/></default></default></default>'
+     '<worldbody><body name="b1"><joint/><geom name="g0" size="0.02"/><frame name="f1" childclass="a" pos="0.1 0 0" euler="0 0 30">'
+     '<geom name="g1"/><frame name="f2" childclass="b" zaxis="0 1 1"><geom name="g2" size="0.02 0.03 0.04"/>'
+     '<body name="b2" pos="0 0 0.2"><joint type="ball"/><geom name="g3"/></body></frame></frame></body></worldbody></mujoco>'),
+    ("keyframe with mocap and act",
+     '<mujoco><worldbody><body name="m" mocap="true" pos="0 0 1"><geom size="0.01" contype="0" conaffinity="0"/></body>'
+     '<body name="b"><joint name="j"/><geom size="0.1"/></body></worldbody>'
+     '<actuator><intvelocity name="a" joint="j" actrange="-1 1"/></actuator>'
+     '<keyframe><key name="k" time="2" qpos="0.3" qvel="-0.1" act="0.25" ctrl="0.5" mpos="0.1 0.2 0.3" mquat="0.5 0.5 0.5 0.5"/></keyframe></mujoco>'),
+]
+
+
+def run_special(lib, vfs, part, tag, xml):
+    r = roundtrip(lib, xml, vfs)
+    part.count(1, key=("special", tag))
+    if r.stage == "load":
+        raise RuntimeError("special model does not load: %s\n%s" % (r.msg, xml))
+    judge(part, r, "model with " + tag, "model with " + tag, {"xml": xml})
+
+
 # ------------------------------------------------------------------ B2: specs edited through the mjSpec API
 
 CHILD = """<mujoco model="child">
   <default><default class="kk"><geom rgba="0 1 0 1" friction="0.6"/></default></default>
   <worldbody>
+    <frame name="cfr" pos="0.05 0 0.1" euler="0.1 0 0.2">
     <body name="cb" pos="0.1 0.2 0.3" quat="0.9 0.1 0 0.2">
       <joint name="cj" axis="0 1 1" damping="0.2"/>
       <geom name="cg" class="kk" type="capsule" size="0.03 0.1"/>
       <site name="cs" pos="0 0 0.1"/>
       <body name="cb2" pos="0 0 0.3"><joint name="cj2" type="ball"/><geom name="cg2" size="0.04"/></body>
     </body>
+    </frame>
   </worldbody>
   <actuator><position name="ca" joint="cj" kp="3"/></actuator>
   <sensor><jointpos name="csn" joint="cj"/></sensor>
@@ -360,7 +435,7 @@ def run_spec_built(lib, vfs, part):
                     tgt = elem(lib.mjs_findFrame(parent, target.encode()))
                 else:
                     tgt = lib.mjs_findElement(parent, 6, target.encode())
-                src = elem(lib.mjs_findBody(child, b"cb"))
+                src = elem(lib.mjs_findFrame(child, b"cfr")) if kind == "body" else elem(lib.mjs_findBody(child, b"cb"))
                 res = lib.mjs_attach(tgt, src, prefix, suffix)
                 if not res:
                     raise RuntimeError("mjs_attach failed: %s" % lib.cstr(lib.mjs_getError(parent)))
@@ -379,11 +454,11 @@ def run_spec_built(lib, vfs, part):
                     part.violation("spec built with mjs_attach: arrays differ after save/reload [%s]" % ",".join(f for f, _ in bad[:4]),
                                    "attach to %s %s: %s" % (kind, target, bad[:6]), replay)
                 t2 = R.save_string(lib, spec2)
-                if t1 != t2:
-                    if R.canon_text(t1) == R.canon_text(t2):
-                        part.add("fixpoint_sibling_order_only")
-                    else:
-                        part.violation("spec built with mjs_attach: saved text is not a fix-point", "attach to %s %s" % (kind, target), replay)
+                tc = R.text_cmp(t1, t2)
+                if tc == "different":
+                    part.violation("spec built with mjs_attach: saved text is not a fix-point", "attach to %s %s" % (kind, target), replay)
+                elif tc != "equal":
+                    part.add("fixpoint_" + ("sibling_order_only" if tc == "reordered" else "numeric_noise_only"))
             finally:
                 for x in (m, m2):
                     if x is not None:
@@ -456,11 +531,11 @@ def run_file(lib, part, path, size_cap):
             part.violation("shipped %s: arrays differ after save/reload [%s]" % (rel, ",".join(f for f, _ in bad[:4])),
                            "%s: %s" % (rel, "; ".join("%s (%s)" % (f, e) for f, e in bad[:8])), {"file": rel})
         t2 = R.save_string(lib, spec2)
-        if t1 != t2:
-            if R.canon_text(t1) == R.canon_text(t2):
-                part.add("fixpoint_sibling_order_only")
-            else:
-                part.violation("shipped %s: saved text is not a fix-point" % rel, rel, {"file": rel})
+        tc = R.text_cmp(t1, t2)
+        if tc == "different":
+            part.violation("shipped %s: saved text is not a fix-point" % rel, rel, {"file": rel})
+        elif tc != "equal":
+            part.add("fixpoint_" + ("sibling_order_only" if tc == "reordered" else "numeric_noise_only"))
     finally:
         for x in (m, m2):
             if x is not None:
@@ -476,7 +551,7 @@ def run_file(lib, part, path, size_cap):
 _OPTS = {}
 
 
-def _chunk(chunk):
+def _init():
     import resource
     try:
         resource.setrlimit(resource.RLIMIT_AS, (12 << 30, 12 << 30))
@@ -484,19 +559,32 @@ def _chunk(chunk):
         pass
     lib = mj.load()
     R.set_precision(lib, 17)
-    part = core.Part()
-    vfs = G.make_vfs(lib)
-    for it in chunk:
-        kind = it[0]
-        if kind == "edge":
-            run_edge(lib, vfs, part, it[1], it[2], it[3], _OPTS["enum_all"])
-        elif kind == "alpha":
-            run_alphabet(lib, vfs, part, it[1], it[2], it[3])
-        elif kind == "spec":
-            run_spec_built(lib, vfs, part)
-        elif kind == "file":
-            run_file(lib, part, it[1], _OPTS["size_cap"])
-    return part
+    return lib, G.make_vfs(lib)
+
+
+def _item(state, part, it):
+    lib, vfs = state
+    kind = it[0]
+    if kind == "edge":
+        run_edge(lib, vfs, part, it[1], it[2], it[3], _OPTS["enum_all"])
+    elif kind == "alpha":
+        run_alphabet(lib, vfs, part, it[1], it[2], it[3])
+    elif kind == "spec":
+        run_spec_built(lib, vfs, part)
+    elif kind == "special":
+        run_special(lib, vfs, part, it[1], it[2])
+    elif kind == "file":
+        run_file(lib, part, it[1], _OPTS["size_cap"])
+
+
+def _label(it):
+    if it[0] == "edge":
+        return "scaffold %s/%s[%s] or one of its attribute settings" % (it[1], it[2], it[3])
+    if it[0] == "alpha":
+        return "alphabet " + it[1]
+    if it[0] == "file":
+        return os.path.relpath(it[1], build.REPO)
+    return it[0]
 
 
 def run(ctx):
@@ -510,8 +598,8 @@ def run(ctx):
     nmax = ctx.q(2, 3)
     alpha = [("alpha", tag, xml, i) for i, (tag, xml) in enumerate(alphabet_models(nmax, menu))]
     files = [("file", f) for f in shipped_files()]
-    items += alpha + [("spec",)] + files
-    core.pmap(ctx, _chunk, items, nchunks=min(len(items), core.NCPU * 6))
+    items += alpha + [("spec",)] + [("special", t, x) for t, x in SPECIALS] + files
+    R.rpmap(ctx, _item, items, init=_init, label=_label)
     ctx.extra["schema_edges"] = nedge
     ctx.extra["alphabet_models"] = len(alpha)
     ctx.extra["shipped_files_found"] = len(files)
